@@ -203,11 +203,11 @@ PLAN = {
 RULES = {
     "C12": "rapid, histories: 1-12 prior calls over all routes, weighted towards what can leave a pooled printer dirty (caught and propagating method panics, SafeFormat methods panicking mid-output, Safe/Unsafe overrides around user programs, bad verbs, %w use and misuse in HelperForErrorf, nested printers, outputs just below and above the 64 KiB pooling limit, error hook, registered types), with a probe after each call and then a battery of 15 fixed probe calls whose results are compared with references obtained on newly allocated printers (pool drained through the hook; GOMAXPROCS(1), GC off during a case so that the pool is not emptied behind the harness); a second generator compares the probes in a warm process with those printed by a freshly started subprocess. Non-trivial = the history contains an abnormal call and at least one probe ran on a recycled printer (no pool allocation during the probe, by the hook's counter). Schedules: 2-16 goroutines replay generated call lists concurrently (1/4 of the cases on one shared set of operand objects) with generated runtime.Gosched() injection; results are compared with single-threaded references, and the same property runs in a -race build where any race report is a violation; plus a fixed scenario (8 goroutines printing one StringBuilder with an open envelope). Non-trivial there = at least two calls actually overlapped (atomic phase counter). Distinct = distinct specs (64-bit fingerprint). The battery also holds probes that use 2 and 4 nested printers at once (reaching printers deeper in the pool) and print panicking Stringers inside nested printers; a fifth of the history calls is a Safe()/Unsafe()/bare re-entrant program whose nested Print/Printf meets a contained or a propagating panic. First use: each of 28 public entry points is the first library call of a freshly started process (made by one goroutine, and - in a race-detector build - by 8 goroutines at once), followed by all the others; results compared with a warm process. Concurrency cases take their sequential references after the concurrent phase and one in three lets several goroutines print a never-seen struct type with field names as their first call.",
     "C05": "rapid: route (Sprintf, Fprintf, Sprint, Fprint, StringBuilder.Printf, SafePrinter.Printf) x 1-3 directives with flags/width/precision and a verb valid for its operand class (string verbs v s q x X, integer verbs v d b o O x X c q U, float verbs, bool verbs) x operands that are leaves or containers of leaves to depth 2 ([]interface{}, [2]interface{}, struct with interface fields, single-entry map[interface{}]interface{} incl. its key) x configuration (every subset of the registrable pool, registry reset per case through the hook). Leaves: plain and named basic kinds, named kinds with String/Error methods, SafeString/SafeInt/SafeUint/SafeFloat, SafeValue-marked kinds, registrable kinds, Safe(x), Unsafe(x), untyped nil, scripted SafeFormatters (flagless directives). Oracle: fmt renders the same shape with every leaf inside an extent wrapper (sentinel + fmt.FormatString forwarding); from it T (full text) and S (unsafe extents reduced to their line feeds) are read off, and strip(out) == esc(T), delEnv(out) == esc(S). Non-trivial = at least one safe and one unsafe leaf and (nesting or a flag/width/precision/non-v verb). Distinct = distinct specs (64-bit fingerprint). Leaves are also placed in reflect.Value operands (made from the value, or designating an interface-typed slot); the builtin types string and int are registered in one case in eight each. C05Join: JoinTo over []string, []int, []interface{}, named-string, error and registered-type slices and arrays on a StringBuilder and on a SafePrinter (after 0-2 prior writes), under all subsets of registered types incl. builtin string/int, compared with Print of each element (non-trivial = at least 2 elements and a registered type). C05Typed: two leaves (plain, named, registered, SafeValue-marked, wrapper, Stringer/error kinds) in a slice, array, map, struct or pointed-to struct whose slots have the leaves' own types and in the same container with interface-typed slots, under a generated directive without # and all subsets of registered types: both must print alike (non-trivial = a leaf is declared safe).",
-    "C06": "rapid: x from the full value universe (1/2 of the cases) or the fmt-compatible one, including scripted Formatters that discover the SafePrinter behind their fmt.State and scripted SafeFormatters, both calling back through Print/Printf/Safe*/Unsafe*/Write with recursive operands, SafeValues, registered types, library-produced RedactableStrings, errors with an error hook installed; a directive without '*'; a wrapper chain W1(W2(W3(x))) of length 1-3; placed at top level, in a []interface{}, in an exported struct field or as a map value. Oracle: N - the chain prints exactly like W1(x); U1 - under an outermost Unsafe nothing of the rendering is outside envelopes (only the container's brackets and line feeds); U2 - at top level, for fmt-compatible x, the stripped text is what fmt prints for x; S1 - under an outermost Safe, for fmt-compatible x without classification of its own, no envelope and exactly fmt's characters (top level and in a slice); H - with a hook installed Unsafe(err) prints as without and the hook is not called. Non-trivial = x is itself classified (SafeValue, Safe-wrapped, registered, redactable, SafeFormatter, hooked error) or its method re-enters the printer. Distinct = distinct specs (64-bit fingerprint). Further placements: the wrapper inside a reflect.Value operand (made from it, or designating an interface-typed slot: Elem of a pointer to an interface, struct field, slice element), which must print like each other and, for pointer- and reflect.Value-free x, like fmt prints x as a slice element. One case in eight is a formatter that discovers the SafePrinter and makes a nested Printf with a missing operand, a bad argument index or an extra operand.",
-    "C17": "rapid: configuration (hook installed with probability 0.9: a scripted function over the SafeWriter-op universe that can also emit the verb and err.Error(); registered safe types) x error values (value/pointer/errors.New/named-kind errors, wrapping, nil-receiver, error+Stringer, error+Formatter, error+SafeFormatter, error+SafeMessager) x positions (top level under every verb and flag incl. invalid and non-ASCII verbs, %T/%p, the %w of HelperForErrorf, []interface{}, []error, map values, exported and unexported struct fields, pointer to struct, arrays, reflect.Value, under Safe(), under Unsafe()) x routes (Sprint, Sprintf, Fprintf, HelperForErrorf). Oracle: output with the hook == output of the same shape with every dispatched error replaced by an error+SafeFormatter stand-in whose SafeFormat runs the hook's script (both shapes share all other objects); the hook is not called in the stand-in run (i.e. never for SafeFormatter/SafeMessager errors, %T/%p, unexported fields, under Unsafe()); the multiset of (error, verb) hook calls equals the stand-in's SafeFormat calls and their number equals the number of dispatched positions; Unsafe(err) prints as without hook and fully enveloped. Non-trivial = hook installed, at least one dispatched error, and not bare top-level %v. Distinct = distinct specs (64-bit fingerprint). A sixth of the hooks panics after its partial output (the stand-in then panics in SafeFormat; the two report names are identified); hooks may print the error's cause through the printer ('Cause' op: the hook is re-entered for it, chains of value-type uncomparable wrapping errors included) and operands of their own that are not errors, including ones whose methods panic. Error kinds also include byte-kinded errors alone and as the elements of a typed slice (a byte string under s/q/x/X: not dispatched there), named slice types whose nil value makes Error panic, and errors that are GoStringers.",
+    "C06": "rapid: x from the full value universe (1/2 of the cases) or the fmt-compatible one, including scripted Formatters that discover the SafePrinter behind their fmt.State and scripted SafeFormatters, both calling back through Print/Printf/Safe*/Unsafe*/Write with recursive operands, SafeValues, registered types, library-produced RedactableStrings, errors with an error hook installed; a directive without '*'; a wrapper chain W1(W2(W3(x))) of length 1-3; placed at top level, in a []interface{}, in an exported struct field or as a map value. Oracle: N - the chain prints exactly like W1(x); U1 - under an outermost Unsafe nothing of the rendering is outside envelopes (only the container's brackets and line feeds); U2 - at top level, for fmt-compatible x, the stripped text is what fmt prints for x; S1 - under an outermost Safe, for fmt-compatible x without classification of its own, no envelope and exactly fmt's characters (top level and in a slice); H - with a hook installed Unsafe(err) prints as without and the hook is not called. Non-trivial = x is itself classified (SafeValue, Safe-wrapped, registered, redactable, SafeFormatter, hooked error) or its method re-enters the printer. Distinct = distinct specs (64-bit fingerprint). Further placements: the wrapper inside a reflect.Value operand (made from it, or designating an interface-typed slot: Elem of a pointer to an interface, struct field, slice element), which must print like each other and, for pointer- and reflect.Value-free x, like fmt prints x as a slice element. One case in eight is a formatter that discovers the SafePrinter and makes a nested Printf with a missing operand, a bad argument index or an extra operand. A further placement is an unexported struct field; for x without a classification of its own or declared safe itself, the output of Safe(x) in any placement has as many envelopes as the same container around Safe(1).",
+    "C17": "rapid: configuration (hook installed with probability 0.9: a scripted function over the SafeWriter-op universe that can also emit the verb and err.Error(); registered safe types) x error values (value/pointer/errors.New/named-kind errors, wrapping, nil-receiver, error+Stringer, error+Formatter, error+SafeFormatter, error+SafeMessager) x positions (top level under every verb and flag incl. invalid and non-ASCII verbs, %T/%p, the %w of HelperForErrorf, []interface{}, []error, map values, exported and unexported struct fields, pointer to struct, arrays, reflect.Value, under Safe(), under Unsafe()) x routes (Sprint, Sprintf, Fprintf, HelperForErrorf). Oracle: output with the hook == output of the same shape with every dispatched error replaced by an error+SafeFormatter stand-in whose SafeFormat runs the hook's script (both shapes share all other objects); the hook is not called in the stand-in run (i.e. never for SafeFormatter/SafeMessager errors, %T/%p, unexported fields, under Unsafe()); the multiset of (error, verb) hook calls equals the stand-in's SafeFormat calls and their number equals the number of dispatched positions; Unsafe(err) prints as without hook and fully enveloped. Non-trivial = hook installed, at least one dispatched error, and not bare top-level %v. Distinct = distinct specs (64-bit fingerprint). A sixth of the hooks panics after its partial output (the stand-in then panics in SafeFormat; the two report names are identified); hooks may print the error's cause through the printer ('Cause' op: the hook is re-entered for it, chains of value-type uncomparable wrapping errors included) and operands of their own that are not errors, including ones whose methods panic. Error kinds also include byte-kinded errors alone and as the elements of a typed slice (a byte string under s/q/x/X: not dispatched there), named slice types whose nil value makes Error panic, and errors that are GoStringers. SafeValue-marked errors are drawn too: the hook call is expected, the value stays as it is in both shapes.",
     "C08": "rapid: histories of 1-6 steps starting from a library-produced redactable r0 (Sprint/Sprintf of generated operands: envelopes, line feeds, escaped markers, empty); each step applies one of 31 re-print / join / container compositions (Sprint, Sprint of ToBytes, Sprintf with literals around any directive except %T/%p incl. flags, width, precision, '*', odd verbs; reflect.ValueOf; Safe(); Join/JoinTo with safe or unsafe delimiters on a builder and on a SafePrinter; StringBuilder.Print/Printf; printing a StringBuilder by value and by pointer; SafePrinter.Print/Printf; []RedactableString, [2]RedactableString, []interface{}, map values, struct fields exported / unexported / interface-typed, pointer to struct, %+v, %#v) and the result becomes the next r. Oracle per step: the result equals the literal concatenation of its pieces (identity for re-printing), and Redact / StripMarkers applied to the result equal the concatenation of their application to the pieces. Non-trivial = the redactable contains an envelope, an escaped marker or a line feed and the step is not bare %v/Sprint. Distinct = distinct specs (64-bit fingerprint). C08Lines: a payload over the byte alphabet with 1-4 line feeds (half of the lines end in a truncated multi-byte sequence) is printed as unsafe or safe text; every line of the output (a redactable of its own by C03) is printed again followed by an unsafe operand, by safe text, or by the other lines (Sprint, Sprintf, StringBuilder, Join with safe and unsafe delimiters), where what follows starts with bytes that could complete a marker: the result must be well-formed and line-safe and nothing of an unsafe operand may be outside envelopes (non-trivial = several lines and marker bytes in the payload).",
-    "C15": "rapid: structured formats with 0-4 directives, each %w with probability 1/2 (flags, width, precision, '*'), operands at %w positions drawn from {error value, pointer error, errors.New, named-kind errors, wrapping error, nil-receiver error, error+Stringer, error+SafeFormatter, error+SafeMessager, Safe(err), Unsafe(err), untyped nil, string, int, Stringer, struct, missing}; other operands from the full or the fmt-compatible universe; optional error hook. Oracle: (E) returned error by the statement (sequential model: the first %w with an error operand is captured, any misuse clears it for good); (T1) no %w => text == Sprintf; (T2) text == per-directive Sprintf with the correct %w printed as %v and every other %w as the bad-verb report; (T3) for at most one %w and fmt-compatible operands: stripped text == fmt.Errorf(...).Error() escaped and error == errors.Unwrap. Non-trivial = at least one %w. Distinct = distinct specs (64-bit fingerprint).",
-    "C16": "rapid: an argument list (full value universe, registered types, optional error hook) with a structured or chaotic format, printed through Sprint/Sprintf (reference), Fprint/Fprintf into a recording writer that succeeds, fails or writes short, HelperForErrorf (formats without %w), and embedded between 0-5 generated prefix and 0-4 suffix writer ops on a StringBuilder, on the SafePrinter of Sprintfn and on the SafePrinter of a SafeFormat method. Oracle: F variant = exactly one Write with the S variant's bytes and (n, err) as returned by the writer; embedded routes equal prefix-alone + S variant + suffix-alone after merging adjacent envelopes. Non-trivial = at least two operands or a non-basic operand, and the prefix leaves an envelope open or unescaped bytes pending in the outer buffer (observed through the hook). Distinct = distinct specs (64-bit fingerprint). The SafeFormat route is also taken under %8v %-6.1v %#v %+v %08.3v '% x' %q when prefix and suffix have no SafeInt/SafeUint/SafeFloat.",
+    "C15": "rapid: structured formats with 0-4 directives, each %w with probability 1/2 (flags, width, precision, '*'), operands at %w positions drawn from {error value, pointer error, errors.New, named-kind errors, wrapping error, nil-receiver error, error+Stringer, error+SafeFormatter, error+SafeMessager, Safe(err), Unsafe(err), untyped nil, string, int, Stringer, struct, missing}; other operands from the full or the fmt-compatible universe; optional error hook. Oracle: (E) returned error by the statement (sequential model: the first %w with an error operand is captured, any misuse clears it for good); (T1) no %w => text == Sprintf; (T2) text == per-directive Sprintf with the correct %w printed as %v and every other %w as the bad-verb report; (T3) for at most one %w and fmt-compatible operands: stripped text == fmt.Errorf(...).Error() escaped and error == errors.Unwrap. Non-trivial = at least one %w. Distinct = distinct specs (64-bit fingerprint). %w positions also hold uncomparable errors, empty byte slices, the invalid reflect.Value and redactables; very long formats repeat one operand kind; a panicking HelperForErrorf is compared with Sprintf of the same format with %w written as %v.",
+    "C16": "rapid: an argument list (full value universe, registered types, optional error hook) with a structured or chaotic format, printed through Sprint/Sprintf (reference), Fprint/Fprintf into a recording writer that succeeds, fails or writes short, HelperForErrorf (formats without %w), and embedded between 0-5 generated prefix and 0-4 suffix writer ops on a StringBuilder, on the SafePrinter of Sprintfn and on the SafePrinter of a SafeFormat method. Oracle: F variant = exactly one Write with the S variant's bytes and (n, err) as returned by the writer; embedded routes equal prefix-alone + S variant + suffix-alone after merging adjacent envelopes. Non-trivial = at least two operands or a non-basic operand, and the prefix leaves an envelope open or unescaped bytes pending in the outer buffer (observed through the hook). Distinct = distinct specs (64-bit fingerprint). The SafeFormat route is also taken under %8v %-6.1v %#v %+v %08.3v '% x' %q when prefix and suffix have no SafeInt/SafeUint/SafeFloat. The F variants are also called with a StringBuilder and a ManualBuffer as destination: one Write of the finished text, which the builder takes as unsafe bytes.",
     "C11": "enumeration: all 2048 surrogates plus negative / out-of-range / boundary runes x every rune-taking method x 5 buffer-state classes (empty, open envelope, after safe text, after pre-redactable text, pending partial UTF-8) x 4 implementations; rapid: (a) histories prefix + one edge call (any int32 rune, any byte 0..255, arbitrary byte strings) + suffix on StringBuilder, ManualBuffer, Sprintfn and SafeFormat printers: no panic, line-safe, text before and after intact; (b) JoinTo with non-slice operands of 25 kinds (int, nil, string, array, map, pointer, chan, func, struct, typed nils, wrappers): no panic, output = printing the value as-is; (c) print cases over all routes / full universe / chaotic formats / configurations: a panic may escape only if a panic is raised while printing a panic payload; (d) a method panicking (String, Error, GoString, SafeMessage, Format, SafeFormat, error hook; after 0-4 ops of partial output; payload string/error/SafeString/int/nested panicker; top level, under Unsafe(), inside a slice) between generated text: the output must equal text-before + partial output + %!verb(PANIC=<method> method: <payload>) + text-after. Non-trivial = an edge value, a non-slice operand, a chaotic format, nil operand or a panicking method is involved. Distinct = distinct specs (64-bit fingerprint). Panic cases also check StringWithoutMarkers against Sprint for SafeFormatter operands.",
     "C14": "enumeration: the complete product 32 flag subsets x 8 widths {absent,1,7,12,1000,*=-7,*=0,*=5} x 7 precisions {absent,'.',0,1,5,*=0,*=3} x 56 verbs (all ASCII letters, e-acute, cross, start marker, invalid byte) x 13 operand kinds (1.4M evaluations), each under fmt's State and under redact's printer; rapid: directives outside the grid (widths 1..300, star values -40..40, precisions 0..40). Non-trivial = any directive other than bare %v. Distinct = distinct (directive, star values, operand kind). A third part (TestEnumC14Big) forwards widths/precisions up to the accepted maximum of 1e6 (literal and '*') and large values congruent to small ones modulo 65536, interleaved with those (the answer must not depend on what was forwarded before). rapid also draws: the probe / forwarder as the second element of a slice after a sibling (0, uint8(0), 7, 2.5, \"ab\", nil, true), '*' width operands of kind uint64/uint/uintptr/int64/uint8 at the edges of their range, operands that are nil pointers to Formatter / Stringer types; and compares the state tuple seen under fmt with the one seen under redact.",
     "C02": "rapid: a shape (route x format x operand tree x registered types x optional error hook) with two instantiations A, B of its unsafe leaves, B derived from A by construction: every non-LF rune of an unsafe string is replaced by a freshly drawn one (markers, multi-byte runes included), run lengths may change when the consuming directive has no width/precision; byte slices and StringBuilder payloads keep their encoded length; bools, floats, complex always redrawn; integers redrawn in structured formats (zero-ness kept: it is 'emptiness' under a zero precision; shared under %c, which can print a line feed) and shared in chaotic formats (any may feed a '*'); map keys keep their relative order; public parts (literals, safe types, Safe()-wrapped, registered, star operands) are shared and free of pointers. Oracle: Redact(A) == Redact(B) byte for byte, both panic or neither, and a private-use rune tagged onto A's unsafe leaves never survives redaction. Non-trivial = the two unredacted outputs differ and the case is not bare top-level %v of basic values. Distinct = distinct specs (64-bit fingerprint). The class histogram counts (operand kind x verb) pairs.",
